@@ -280,6 +280,10 @@ func (s *State) assumeDef(t T) {
 	if t.S != "true" {
 		s.pc = append(s.pc, t)
 		definitional[t.S] = true
+		// (= name term): remember the definition of the name
+		if as := ctorArgs(t.S, "="); len(as) == 2 && !strings.HasPrefix(as[0], "(") {
+			termDefs[as[0]] = as[1]
+		}
 	}
 }
 
@@ -426,7 +430,7 @@ func (s *State) escape(t T) {
 	}
 	var keep []privRef
 	for _, p := range s.private {
-		if !mentions(t.S, p.ref.S) {
+		if !carriesRef(t.S, p.ref.S) {
 			keep = append(keep, p)
 		}
 	}
@@ -440,4 +444,35 @@ func (c *Cell) elemSort(u *Unit) string {
 		}
 	}
 	return "Int"
+}
+
+// carriesRef: the value of term t may be (or contain, as a component of a
+// slice / interface / struct value) the reference ref.  A term that merely
+// reads memory at ref (select ... ref) does not carry it.
+// termDefs: named term -> defining term (filled wherever the engine names a term).
+var termDefs = map[string]string{}
+
+func carriesRef(t, ref string) bool {
+	if t == ref {
+		return true
+	}
+	if !strings.HasPrefix(t, "(") {
+		if d, ok := termDefs[t]; ok && d != t {
+			return carriesRef(d, ref)
+		}
+		return false
+	}
+	sp := strings.IndexByte(t, ' ')
+	if sp < 0 {
+		return false
+	}
+	head := t[1:sp]
+	if strings.HasPrefix(head, "mk_") || head == "ite" || strings.HasPrefix(head, "box") {
+		for _, a := range ctorArgs(t, head) {
+			if carriesRef(a, ref) {
+				return true
+			}
+		}
+	}
+	return false
 }
